@@ -43,7 +43,7 @@ type c11Scenario struct {
 var c11Kinds = []string{
 	"claimCreate", "claimCreate", "claimLaunch", "claimDelete", "claimGone", "claimRelabel",
 	"nodeCreate", "nodeCreate", "nodeLabel", "nodeCapacity", "nodeTaint", "nodeDelete", "nodeGone", "nodeProviderID",
-	"podCreate", "podCreate", "podCreate", "podBind", "podBind", "podRebind", "podRecreate", "podComplete", "podDelete", "podAnnotate", "podAnnotate", "daemonPod",
+	"podCreate", "podCreate", "podCreate", "podBind", "podBind", "podRebind", "podRecreate", "podRecreateInPlace", "podRecreateInPlace", "podComplete", "podDelete", "podAnnotate", "podAnnotate", "daemonPod",
 	"mark", "unmark",
 	"deliver", "deliver", "deliver", "deliver", "deliver", "deliver", "quiesce",
 }
@@ -294,6 +294,20 @@ func (x *c11World) step(op c11Op) {
 			if x.getPod(op.B) == nil {
 				x.apply(c11Pod(op.B, op), "Pod")
 				x.c.Class("pod_recreated_unbound")
+			}
+		}
+	case "podRecreateInPlace":
+		// a bound pod is deleted and re-created under the same name on the SAME node with another spec (a StatefulSet
+		// pod after a template change): Karpenter may only ever see the latest object
+		if p := x.getPod(op.B); p != nil && p.Spec.NodeName != "" {
+			node := p.Spec.NodeName
+			w.FinishPod(client.ObjectKeyFromObject(p))
+			if x.getPod(op.B) == nil {
+				np := c11Pod(op.B, c11Op{A: op.A, B: op.B, C: op.C})
+				np.Spec.NodeName = node
+				np.Status.Phase = corev1.PodRunning
+				x.apply(np, "Pod")
+				x.c.Class("pod_recreated_in_place")
 			}
 		}
 	case "podComplete":
